@@ -421,7 +421,7 @@ func (vc *VC) ghostAssign(env *Env, st *State, g GhostUpd) {
 		if gd == nil {
 			vc.fail("ghost assignment to unknown ghost %s", l.Name)
 		}
-		srt, _ := env.sortOfTypeString(gd.Val)
+		_, srt, _ := env.ghostSorts(gd)
 		vc.setHeap(st, "GH."+gd.Name, srt, rhs.t)
 	case *EIndex:
 		id, ok := l.X.(*EIdent)
